@@ -450,11 +450,9 @@ impl Expression for ExpressionAssignUndefined {
             match left_result {
                 Err(err) => Err(err),
                 Ok(left_value) => {
-                    right_result
-                        .lock()
-                        .unwrap()
-                        .deref()
-                        .clone_into(left_value.lock().unwrap().deref_mut());
+                    // Work on a copy: left and right may be the same Arc (a ?= a).
+                    let right_data = right_result.lock().unwrap().clone();
+                    right_data.clone_into(left_value.lock().unwrap().deref_mut());
                     Ok(left_value.clone())
                 }
             }
